@@ -8,6 +8,7 @@ import (
 	"context"
 	"fmt"
 	"github.com/openfga/openfga/internal/verifh/e1"
+	"github.com/openfga/openfga/pkg/storage"
 	"sort"
 	"strings"
 	"sync"
@@ -332,6 +333,25 @@ func (w *world) observe(e *env, x int, deleted bool, devs *[]hx.Dev) []string {
 	if !listed && !deleted {
 		*devs = append(*devs, hx.Dev{Sig: "live-store-missing-from-ListStores", Desc: fmt.Sprintf("ListStores omits %s although it was not deleted", storeNames[x])})
 	}
+	// ListStores with an id filter naming both stores (what the server passes when access control is on: the
+	// caller's readable stores), at the datastore interface
+	if stores, _, err := e.rec.OpenFGADatastore.ListStores(ctx, storage.ListStoresOptions{IDs: []string{e.ids[1], e.ids[0]}, Pagination: storage.PaginationOptions{PageSize: 50}}); err != nil {
+		out = append(out, "ListStores-by-ids="+code(err))
+	} else {
+		l2 := false
+		for _, s := range stores {
+			if s.GetId() == id {
+				l2 = true
+			}
+		}
+		out = append(out, "ListStores-by-ids-contains="+fmt.Sprint(l2))
+		if l2 && deleted {
+			*devs = append(*devs, hx.Dev{Sig: "deleted-store-returned-by-ListStores/id-filter", Desc: fmt.Sprintf("datastore ListStores with an id filter contains %s after DeleteStore", storeNames[x])})
+		}
+		if !l2 && !deleted {
+			*devs = append(*devs, hx.Dev{Sig: "live-store-missing-from-ListStores/id-filter", Desc: fmt.Sprintf("datastore ListStores with an id filter omits %s although it was not deleted", storeNames[x])})
+		}
+	}
 	return out
 }
 
@@ -502,7 +522,7 @@ func (w *world) report(backend string, hist []int, d hx.Dev) {
 
 func Run(o *core.Options) int {
 	r := core.NewReport(o, "model_checking",
-		"BFS over interleaved histories on two stores A, B of one Server (same store name, same first model id and text, same object/user ids; check query cache, both iterator caches, shared iterators and cache controller on). Events per store: write/delete tuple doc:1#viewer@user:a, write a second model (can_view loses a branch), write assertions, delete store, Check, ListObjects, ListUsers, Expand, Read, ReadChanges (queries carry no model id). Per store: mutators before observers (a store's own cache staleness is allowed behaviour and timing dependent; it is not what is examined), at most P events per store and D events in total; requests without effect are not enumerated (write of a present tuple, delete of an absent one, mutators on a deleted store, a second WriteAuthorizationModel/WriteAssertions on the same store). successor = replay of the shortest history on a fresh Server + one event; then both stores are fully observed. Oracle: for each store, the outputs of its events and its final observation equal those of the same events executed alone on a fresh server; a recording datastore checks the store id of every storage call against the store of the request; GetStore/ListStores after DeleteStore. States deduplicated by (per store: final observation, number of events, phase, cache-filling requests made per model count). Mirror images (first event on B) are pruned. non-trivial = both stores have events and their final observations differ; distinct by (backend, history). PART 2, cross-store references (refs.go; memory and SQLite in both tiers): one Server (same caches), stores A and B with different tuples; every model identifier of the world - S (caller-chosen id written into BOTH stores through storage.WriteAuthorizationModel with a DIFFERENT text per store), GA / GB (ids the Server generated for a model written to A / B through the API), N (well-formed, never written), none (latest) - is used on BOTH stores in every model-addressed request: ReadAuthorizationModel, Check, BatchCheck, ListObjects, ListUsers, Expand, ReadAssertions, WriteAssertions, Write at the Server API, and ReadAuthorizationModel, ReadAssertions, FindLatestAuthorizationModel, ReadAuthorizationModels, WriteAssertions at the datastore interface. A case = (text assignment of 4 texts with different can_view, whose rows are inserted first, which store is asked first, prefix of <= L requests from the whole alphabet incl. the mutators) on a fresh Server, followed by a sweep of every observer x every identifier on both stores and of the datastore interface; so every cache is filled once by the owner first and once by the foreign reference first. Oracle: a reference of two independent stores in plain Go (maps; can_view of the four texts written by hand): an id that names no model of the store of the request must be refused, with exactly the refusal given to the never-written id N (ids masked), and must leave both stores unchanged; an id the store holds must be answered from that store's own text, tuples and assertions; the seam checks the store id of every storage call. Signatures model-reference/<layer>/<request>/<identifier kind>/<class>; a signature is decided by 6 executions of the first case showing it. non-trivial = the two stores answered the shared id differently and foreign ids were presented; distinct by case")
+		"BFS over interleaved histories on two stores A, B of one Server (same store name, same first model id and text, same object/user ids; check query cache, both iterator caches, shared iterators and cache controller on). Events per store: write/delete tuple doc:1#viewer@user:a, write a second model (can_view loses a branch), write assertions, delete store, Check, ListObjects, ListUsers, Expand, Read, ReadChanges (queries carry no model id). Per store: mutators before observers (a store's own cache staleness is allowed behaviour and timing dependent; it is not what is examined), at most P events per store and D events in total; requests without effect are not enumerated (write of a present tuple, delete of an absent one, mutators on a deleted store, a second WriteAuthorizationModel/WriteAssertions on the same store). successor = replay of the shortest history on a fresh Server + one event; then both stores are fully observed. Oracle: for each store, the outputs of its events and its final observation equal those of the same events executed alone on a fresh server; a recording datastore checks the store id of every storage call against the store of the request; GetStore/ListStores (by name at the API, by an id filter naming both stores at the datastore interface) after DeleteStore. States deduplicated by (per store: final observation, number of events, phase, cache-filling requests made per model count). Mirror images (first event on B) are pruned. non-trivial = both stores have events and their final observations differ; distinct by (backend, history). PART 2, cross-store references (refs.go; memory and SQLite in both tiers): one Server (same caches), stores A and B with different tuples; every model identifier of the world - S (caller-chosen id written into BOTH stores through storage.WriteAuthorizationModel with a DIFFERENT text per store), GA / GB (ids the Server generated for a model written to A / B through the API), N (well-formed, never written), none (latest) - is used on BOTH stores in every model-addressed request: ReadAuthorizationModel, Check, BatchCheck, ListObjects, ListUsers, Expand, ReadAssertions, WriteAssertions, Write at the Server API, and ReadAuthorizationModel, ReadAssertions, FindLatestAuthorizationModel, ReadAuthorizationModels, WriteAssertions at the datastore interface. A case = (text assignment of 4 texts with different can_view, whose rows are inserted first, which store is asked first, prefix of <= L requests from the whole alphabet incl. the mutators) on a fresh Server, followed by a sweep of every observer x every identifier on both stores and of the datastore interface; so every cache is filled once by the owner first and once by the foreign reference first. Oracle: a reference of two independent stores in plain Go (maps; can_view of the four texts written by hand): an id that names no model of the store of the request must be refused, with exactly the refusal given to the never-written id N (ids masked), and must leave both stores unchanged; an id the store holds must be answered from that store's own text, tuples and assertions; the seam checks the store id of every storage call. Signatures model-reference/<layer>/<request>/<identifier kind>/<class>; a signature is decided by 6 executions of the first case showing it. non-trivial = the two stores answered the shared id differently and foreign ids were presented; distinct by case")
 	r.Assume("memory: fresh datastore per replay; SQLite: fresh Server and two fresh stores (replay-unique name) per replay on a per-worker migrated database, fsync disabled",
 		"the first model is installed through the datastore interface so that both stores hold the same model id; every event goes through the Server API",
 		"background storage calls (cache controller) carry no request mark: they are only required to name one of the two stores",
